@@ -1101,7 +1101,8 @@ class SingleSiteDMRGEngine(DMRGEngine):
                 theta.ireplace_label('(p0.vR)', '(p1.vR)')
                 theta = npc.tensordot(next_A, theta, axes=['vR', 'vL'])
                 i0 = self.i0 - 1
-            qtotal_LR = [self.psi.get_B(i0, form=None).qtotal, self.psi.get_B(i0 + 1, form=None).qtotal]
+            qtotal_L = self.psi.get_B(i0, form=None).qtotal
+            qtotal_LR = [qtotal_L, theta.qtotal - qtotal_L]  # diag_method='ED_all' may have changed theta.qtotal
             U, S, VH, err, S_a = mixer.mixed_svd_2site(
                 engine=self, theta=theta, i0=i0, mix_left=update_LP, mix_right=update_RP, qtotal_LR=qtotal_LR
             )
